@@ -147,9 +147,12 @@ class Connection:
       if foreign(value):
         self._set_existing_field(k, value.name, set_reference = True)
       else:
-        for elem in (value if isinstance(value, list) else [value]):
+        for i, elem in enumerate(value if isinstance(value, list) else [value]):
           if isinstance(elem, gfapy.OrientedLine) and foreign(elem.line):
             elem._set_line(elem.name)
+          elif isinstance(value, list) and foreign(elem):
+            # (the items of a set are lines, without orientation)
+            value[i] = elem.name
 
   def _check_segment_references(self, gfa):
     """
